@@ -7,6 +7,7 @@ import (
 	"sort"
 
 	crypto "github.com/dappledger/AnnChain/gemmill/go-crypto"
+	"github.com/dappledger/AnnChain/gemmill/go-wire"
 	"github.com/dappledger/AnnChain/gemmill/types"
 )
 
@@ -38,6 +39,12 @@ type config struct {
 	Len [4]int
 	// Ext: thorough tier, bare VoteSet: one more letter under a time cap
 	Ext bool
+	// Build: how the validator set handed to the vote sets came about: "" = NewValidatorSet;
+	// "add-update" = a set of the first n-1 members (the first with another power), then Add of the
+	// last member and Update of the first to its power - the call sequence of a block that carries
+	// two validator changes; "reload-update" = the set read back from its wire encoding (as a State
+	// loaded from disk holds it), then the same Update.
+	Build string
 }
 
 const (
@@ -201,6 +208,27 @@ func (f *fixture) valSet() *types.ValidatorSet {
 	vals := make([]*types.Validator, f.n)
 	for i := 0; i < f.n; i++ {
 		vals[i] = types.NewValidator(f.pubs[i], f.cfg.Powers[i], false)
+	}
+	switch f.cfg.Build {
+	case "add-update":
+		first := vals[0].Copy()
+		first.VotingPower += 4
+		vs := types.NewValidatorSet(append([]*types.Validator{first}, vals[1:f.n-1]...))
+		if !vs.Add(vals[f.n-1]) || !vs.Update(vals[0].Copy()) {
+			panic("harness: cannot build the validator set by Add+Update")
+		}
+		return vs
+	case "reload-update":
+		first := vals[0].Copy()
+		first.VotingPower += 4
+		bz := wire.BinaryBytes(types.NewValidatorSet(append([]*types.Validator{first}, vals[1:]...)))
+		var n int
+		var err error
+		vs := wire.ReadBinary(&types.ValidatorSet{}, bytes.NewReader(bz), 0, &n, &err).(*types.ValidatorSet)
+		if err != nil || !vs.Update(vals[0].Copy()) {
+			panic(fmt.Sprintf("harness: cannot rebuild the validator set from its encoding: %v", err))
+		}
+		return vs
 	}
 	return types.NewValidatorSet(vals)
 }
